@@ -4,7 +4,7 @@ import textwrap
 
 import yaml
 
-from common import S, run_batch, unS
+from common import work_dir, S, run_batch, unS
 
 GEN = ['GChecks.v', 'GParser.v']
 
@@ -174,6 +174,58 @@ def run(run, binfo):
                           {'kind': 'failing-input', 'suite': 'spec-c17', 'input': desc, 'expected': want,
                            'observed': repr(jgot)[:500]})
         run.nontrivial.add(text)
+    # ---- end to end through _generate_sample: the defaults spread over several namespaces (some of them empty)
+    from unittest import mock
+    import tempfile
+    nend = 0
+    for j, (ds, ex) in enumerate(infos):
+        if j % 4:
+            continue
+        nns = 1 + (j // 4) % 3
+        spread = {'ns%d' % t: [] for t in range(nns + (1 if (j // 12) % 2 else 0))}     # sometimes one more, left empty
+        keys = sorted(spread)
+        for t, d in enumerate(ds):
+            spread[keys[(t + j) % nns]].append(d)
+        if (j // 24) % 2:
+            spread = dict([('ns_empty_first', [])] + list(spread.items()))
+        desc = {'namespaces': {k: [(d.name, d.check_str) for d in v] for k, v in spread.items()}, 'exclude_deprecated': ex}
+        want = {d.name: d.check_str for d in ds}
+        for fmt in ('yaml', 'json'):
+            nend += 1
+            run.evaluations += 1
+            with tempfile.NamedTemporaryFile('r', suffix='.' + fmt, dir=work_dir()) as tf:
+                try:
+                    with mock.patch.object(generator, 'get_policies_dict', return_value=spread):
+                        generator._generate_sample(list(spread), tf.name, fmt, include_help=True, exclude_deprecated=ex)
+                    out = open(tf.name).read()
+                except Exception as e:   # noqa
+                    run.violation('sample-crash', 'oslopolicy-sample-generator fails with %s' % type(e).__name__,
+                                  {'kind': 'failing-input', 'suite': 'spec-c17', 'input': dict(desc, format=fmt),
+                                   'expected': 'a sample file', 'observed': type(e).__name__})
+                    continue
+            if fmt == 'json':
+                try:
+                    jgot = json.loads(out)
+                except Exception as e:   # noqa
+                    jgot = 'JSON ERROR %s' % type(e).__name__
+                if jgot != want:
+                    run.violation('json-mapping', 'JSON sample over namespaces %r holds %r, defaults are %r'
+                                  % (list(spread), jgot, want),
+                                  {'kind': 'failing-input', 'suite': 'spec-c17', 'input': dict(desc, format=fmt),
+                                   'expected': want, 'observed': repr(jgot)[:500]})
+            else:
+                try:
+                    loaded = yaml.safe_load(out)
+                    unc = '\n'.join(l[1:] if l.startswith('#"') else l for l in out.split('\n'))
+                    got = yaml.safe_load(unc) or {}
+                except Exception as e:   # noqa
+                    loaded, got = 'YAML ERROR %s' % type(e).__name__, None
+                if loaded is not None or got != want:
+                    run.violation('sample-mapping', 'YAML sample over namespaces %r: loads as %r, uncommented %r, defaults %r'
+                                  % (list(spread), loaded, got, want),
+                                  {'kind': 'failing-input', 'suite': 'spec-c17', 'input': dict(desc, format=fmt),
+                                   'expected': want, 'observed': repr(got)[:500]})
+    run.count('end_to_end_samples', nend)
     run.extra['shape_histogram'] = shapes
     run.sample({'defaults': [(d.name, d.check_str, d.description) for d in infos[0][0]]})
     run.extra['correspondence_disagreements'] = len(bad_corr)
